@@ -153,3 +153,4 @@ def shrink(case):
         return
     yield from common.shrink_faults(case, ("main",))
     yield from common.shrink_tasks(case, {"main"})
+    yield from common.shrink_buffers(case, ("main",))
